@@ -41,7 +41,10 @@ CONSTANTS NSap,        \* size of the SAP table (64; scaled 8)
           Dsts,        \* destination addresses of datagrams / connects       (model checking only)
           RecvBuf,     \* SO_RCVBUF of logical data link sockets
           Backlog,     \* listen() backlog
-          WksCheck, SnlClean, KeepDead
+          WksCheck, SnlClean, KeepDead,
+          Miu,         \* [side -> link MIU the side announces]; a sender's limit is the receiver's MIU
+          Lens,        \* datagram payload lengths offered to sendto()             (model checking only)
+          HdrInMiu     \* (wrong variant) the receiving socket counts the 2-octet UI header against its MIU (code: FALSE)
 
 Sides == {"A", "B"}
 Peer(c) == IF c = "A" THEN "B" ELSE "A"
@@ -132,7 +135,7 @@ ConnectR(x, c, s, dst) ==
             ELSE LET l == FirstWhere(y, p, y.sap[p][a], LAMBDA q : q.st = "listen") IN                            \* SAP.enqueue
                  IF l = 0 THEN [w |-> y, res |-> "Refused", reach |-> 0]                                          \* DM 02h
                  ELSE IF Len(y.sk[p][l].rq) >= Backlog THEN [w |-> y, res |-> "Busy", reach |-> 0]                \* DM 20h
-                 ELSE [w |-> [y EXCEPT !.sk[p][l].rq = Append(@, [m |-> s, ssap |-> me, to |-> a]),
+                 ELSE [w |-> [y EXCEPT !.sk[p][l].rq = Append(@, [m |-> s, ssap |-> me, to |-> a, len |-> 0]),
                                        !.sk[c][s].st = "connecting"],
                        res |-> "Pending", reach |-> l]
 
@@ -152,12 +155,16 @@ AcceptR(x, c, l) ==
 \* got: socket id at the peer whose receive queue took the datagram (0 = nobody); hit: the socket the access point
 \* handed the UI PDU to.  A connection-mode socket (listening, connected or not) answers a UI PDU with FRMR and
 \* shuts down (tco.py DataLinkConnection.enqueue, "non connection mode pdu") - it stays in its access point
-SendToR(x, c, s, dst, m) ==
+\* n: payload length.  sendto() refuses more than the link MIU the receiver announced (EMSGSIZE, tco.py sendto);
+\* the receiving logical data link drops a payload above its own MIU (tco.py LogicalDataLink.enqueue) - which an
+\* accepted datagram never is: whatever sendto() accepted is delivered to the socket bound at the destination
+SendToR(x, c, s, dst, m, n) ==
     LET k == x.sk[c][s]  p == Peer(c) IN
     LET b == AutoBind(x, c, s) IN
     IF b.res # "OK" THEN [w |-> b.w, res |-> b.res, got |-> 0, hit |-> 0]
     ELSE IF k.st = "shut" THEN [w |-> b.w, res |-> "Shutdown", got |-> 0, hit |-> 0]
     ELSE IF k.peer # NoAddr /\ dst # k.peer THEN [w |-> b.w, res |-> "DestReq", got |-> 0, hit |-> 0]
+    ELSE IF n > x.miu[p] THEN [w |-> b.w, res |-> "MsgSize", got |-> 0, hit |-> 0]               \* EMSGSIZE
     ELSE LET y == b.w
              me == y.sk[c][s].addr
              t == IF dst \in {0, 1} THEN 0
@@ -166,13 +173,17 @@ SendToR(x, c, s, dst, m) ==
             ELSE IF y.sk[p][t].kind = "dlc"
             THEN [w |-> [y EXCEPT !.sk[p][t].st = "dead", !.sk[p][t].rq = <<>>], res |-> "OK", got |-> 0, hit |-> t]
             ELSE IF Len(y.sk[p][t].rq) >= RecvBuf THEN [w |-> y, res |-> "OK", got |-> 0, hit |-> t]
-            ELSE [w |-> [y EXCEPT !.sk[p][t].rq = Append(@, [m |-> m, ssap |-> me, to |-> dst])], res |-> "OK", got |-> t, hit |-> t]
+            ELSE IF y.sk[p][t].kind = "ldl" /\ (IF HdrInMiu THEN n + 2 ELSE n) > x.miu[p]
+                 THEN [w |-> y, res |-> "OK", got |-> 0, hit |-> t]                                 \* "exceeds local link MIU"
+            ELSE [w |-> [y EXCEPT !.sk[p][t].rq = Append(@, [m |-> m, ssap |-> me, to |-> dst, len |-> n])],
+                  res |-> "OK", got |-> t, hit |-> t]
 
 \* recvfrom() with a datagram waiting (the binding never calls it on an empty queue: it would block)    llc.py:854
 RecvFromR(x, c, s) ==
     LET k == x.sk[c][s] IN
-    IF k.addr = NoAddr \/ ~Occupied(x, c, k.addr) THEN [w |-> x, res |-> "BadF", m |-> 0, ssap |-> 0]
-    ELSE [w |-> [x EXCEPT !.sk[c][s].rq = Tail(@)], res |-> "OK", m |-> Head(k.rq).m, ssap |-> Head(k.rq).ssap]
+    IF k.addr = NoAddr \/ ~Occupied(x, c, k.addr) THEN [w |-> x, res |-> "BadF", m |-> 0, ssap |-> 0, len |-> 0]
+    ELSE [w |-> [x EXCEPT !.sk[c][s].rq = Tail(@)], res |-> "OK", m |-> Head(k.rq).m, ssap |-> Head(k.rq).ssap,
+          len |-> Head(k.rq).len]
 
 \* recv() on a connection-mode socket that is not waiting for data: in CLOSE_WAIT it finds the DISC indication,
 \* shuts the socket down (tco.py DataLinkConnection.recv -> self.close()) and returns None - the socket is NOT
@@ -262,7 +273,12 @@ ConnectByNameP(o, l) == (l.op = "ConnectName" /\ l.kind = "dlc") =>
 DatagramStepP(o, x, l) == (l.op = "SendTo" /\ l.got # 0) =>
                             LET p == Peer(l.c)  k == x.sk[p][l.got] IN
                             /\ k.addr = l.dst /\ InList(x, p, l.dst, l.got)
-                            /\ k.rq[Len(k.rq)] = [m |-> l.m, ssap |-> x.sk[l.c][l.s].addr, to |-> l.dst]
+                            /\ k.rq[Len(k.rq)] = [m |-> l.m, ssap |-> x.sk[l.c][l.s].addr, to |-> l.dst, len |-> l.ln]
+\* every datagram that sendto() accepted is taken by the socket bound at its destination (when that is a datagram
+\* or raw socket with room in its receive buffer) - and, by DatagramStepP, by no other
+DeliveredP(o, l) == (l.op = "SendTo" /\ l.res = "OK" /\ l.hit # 0) =>
+                        LET k == o.sk[Peer(l.c)][l.hit] IN
+                        (k.kind # "dlc" /\ Len(k.rq) < RecvBuf) => l.got = l.hit
 
 OneAddrPerSocket == OneAddrPerSocketP(w)
 NoDoubleAlloc == NoDoubleAllocP(w)
@@ -275,14 +291,16 @@ ResolveRight  == [][ResolveRightP(w, last')]_vars
 InUseRight    == [][InUseRightP(w, last')]_vars
 ConnectByName == [][ConnectByNameP(w, last')]_vars
 DatagramStep  == [][DatagramStepP(w, w', last')]_vars
+Delivered     == [][DeliveredP(w, last')]_vars
 
 \* ------------------------------------------------------------------ model-checking actions
 World0 == [sk |-> [c \in Sides |-> <<>>],
            sap |-> [c \in Sides |-> [a \in Addrs |-> <<>>]],
            snl |-> [c \in Sides |-> [n \in Names |-> 0]],
-           rsnl |-> [c \in Sides |-> [n \in Names |-> NoAddr]]]
+           rsnl |-> [c \in Sides |-> [n \in Names |-> NoAddr]],
+           miu |-> Miu]
 L0 == [op |-> "Init", c |-> "A", s |-> 0, n |-> "", a |-> 0, dst |-> 0, m |-> 0, kind |-> "", res |-> "OK", val |-> 0,
-       reach |-> 0, got |-> 0, cached |-> FALSE]
+       reach |-> 0, got |-> 0, cached |-> FALSE, ln |-> 0, hit |-> 0]
 Rec(op, c, s, o) == [L0 EXCEPT !.op = op, !.c = c, !.s = s,
                                !.kind = IF s \in 1..Len(o.sk[c]) THEN o.sk[c][s].kind ELSE ""]
 
@@ -328,12 +346,13 @@ Accept(c, s) ==
     /\ LET r == AcceptR(w, c, s) IN w' = r.w /\ last' = [Rec("Accept", c, s, w) EXCEPT !.res = r.res, !.got = r.new]
 \* a datagram may hit a connection-mode socket (which shuts down), but not one whose owner is blocked in connect()
 \* and not a listener with unanswered connection requests (their owners would wait for ever)
-SendTo(c, s, dst, m) ==
+SendTo(c, s, dst, m, n) ==
     /\ Can(c, "SendTo") /\ Alive(c, s) /\ w.sk[c][s].kind = "ldl"
-    /\ LET r == SendToR(w, c, s, dst, m)
+    /\ LET r == SendToR(w, c, s, dst, m, n)
        IN /\ (r.hit # 0 /\ w.sk[Peer(c)][r.hit].kind = "dlc") =>
                 (w.sk[Peer(c)][r.hit].st # "connecting" /\ w.sk[Peer(c)][r.hit].rq = <<>>)
-          /\ w' = r.w /\ last' = [Rec("SendTo", c, s, w) EXCEPT !.res = r.res, !.dst = dst, !.m = m, !.got = r.got]
+          /\ w' = r.w /\ last' = [Rec("SendTo", c, s, w) EXCEPT !.res = r.res, !.dst = dst, !.m = m, !.got = r.got,
+                                                                   !.ln = n, !.hit = r.hit]
 \* recv() on a connection-mode socket, never where it would block (connected with nothing to read, connecting)
 Recv(c, s) ==
     /\ Can(c, "Recv") /\ Alive(c, s) /\ w.sk[c][s].kind = "dlc" /\ w.sk[c][s].st \notin {"conn", "connecting"}
@@ -347,7 +366,7 @@ RecvFrom(c, s) ==
     /\ Can(c, "RecvFrom") /\ Alive(c, s) /\ w.sk[c][s].kind # "dlc"
     /\ (w.sk[c][s].addr # NoAddr /\ Occupied(w, c, w.sk[c][s].addr)) => w.sk[c][s].rq # <<>>
     /\ LET r == RecvFromR(w, c, s)
-       IN w' = r.w /\ last' = [Rec("RecvFrom", c, s, w) EXCEPT !.res = r.res, !.m = r.m, !.a = r.ssap]
+       IN w' = r.w /\ last' = [Rec("RecvFrom", c, s, w) EXCEPT !.res = r.res, !.m = r.m, !.a = r.ssap, !.ln = r.len]
 Resolve(c, n) ==
     /\ Can(c, "Resolve")
     /\ LET r == ResolveR(w, c, n)
@@ -372,7 +391,7 @@ Next == \E c \in Sides :
                 \/ \E a \in Dsts : ConnectAddr(c, s, a)
                 \/ \E n \in Names : ConnectName(c, s, n)
                 \/ Accept(c, s)
-                \/ \E dst \in Dsts, m \in Msgs : SendTo(c, s, dst, m)
+                \/ \E dst \in Dsts, m \in Msgs, n \in Lens : SendTo(c, s, dst, m, n)
                 \/ RecvFrom(c, s)
                 \/ Recv(c, s)
                 \/ PeerFrmr(c, s)
@@ -388,6 +407,8 @@ W_NamedExhausted == ~(last.op = "BindName" /\ last.res = "Exhausted")
 W_DynExhausted   == ~(last.op = "BindNone" /\ last.res = "Exhausted")
 W_Shared         == ~(\E c \in Sides : \E a \in Addrs : Len(w.sap[c][a]) >= 2)
 W_Delivered      == ~(last.op = "RecvFrom" /\ last.res = "OK")
+W_FullSize       == ~(last.op = "RecvFrom" /\ last.res = "OK" /\ last.ln = w.miu[last.c])        \* a payload of exactly the MIU arrived
+W_TooLong        == ~(last.op = "SendTo" /\ last.res = "MsgSize")
 W_Resolved       == ~(last.op = "Resolve" /\ last.val \notin {0, 1})
 W_ByName         == ~(last.op = "Accept" /\ w.sk[last.c][last.s].name # "")
 W_WksBound       == ~(last.op = "BindName" /\ last.n = "wk" /\ last.res = "OK")
